@@ -3,7 +3,7 @@ monitors, verdict, evidence.  DESIGN.md section 5."""
 import fcntl
 import glob
 import importlib
-import json
+import hashlib, json
 import os
 import random
 import re
@@ -328,18 +328,27 @@ def run_family(famname, prop, n, size, seed, pool, with_corpus=True):
     for i in range(n):
         rng = random.Random('%s/%s/%s/%d' % (seed, famname, size, i))
         scs.append(('gen-%d' % i, fam.gen(rng, size)))
+    res = dict(family=famname, evaluations=0, skipped=0, mismatches=[], violations=[], stats=Counter(),
+               nontrivial=0, distinct=set(), samples=[], ints=0)
+    # in batches: the integer traces of a few hundred scenarios at a time (a thorough run of 12 000 floor scenarios held
+    # more than 10 GB when everything was kept until the end)
+    BATCH = 400
+    for b0 in range(0, len(scs), BATCH):
+        _run_batch(fam, famname, prop, scs[b0:b0 + BATCH], pool, res)
+    return res
+
+
+def _run_batch(fam, famname, prop, scs, pool, res):
     results = pool.map(_worker, [(famname, sc, [prop]) for _, sc in scs], chunksize=4)
     ok_idx = [i for i, r in enumerate(results) if r[0] == 'ok']
     model_out = common.run_model(fam.FAMILY, [fam.encode(scs[i][1]) for i in ok_idx]) if ok_idx else []
-    res = dict(family=famname, evaluations=0, skipped=0, mismatches=[], violations=[], stats=Counter(),
-               nontrivial=0, distinct=set(), samples=[], ints=0)
     for j, i in enumerate(ok_idx):
         name, sc = scs[i]
         _, flat, mon, st, nt = results[i]
         res['evaluations'] += 1
         res['ints'] += len(flat)
         res['stats'].update(st)
-        key = json.dumps(sc, sort_keys=True)
+        key = hashlib.sha1(json.dumps(sc, sort_keys=True).encode()).digest()
         if nt.get(prop) and key not in res['distinct']:
             res['distinct'].add(key)
             res['nontrivial'] += 1
@@ -358,7 +367,6 @@ def run_family(famname, prop, n, size, seed, pool, with_corpus=True):
         elif r[0] == 'crash':
             res['evaluations'] += 1
             res['mismatches'].append(dict(name=scs[i][0], scenario=scs[i][1], pos=-1, crash=r[1], tb=r[2]))
-    return res
 
 
 # --------------------------------------------------------------------------- findings / replay
